@@ -107,6 +107,10 @@ def write_tree(root, t):
         os.makedirs(os.path.dirname(p), exist_ok=True)
         open(p, "wb").write(c)
     os.makedirs(root, exist_ok=True)
+    # empty folders (one walked before everything else, one nested): they hold no file and change no metric
+    os.makedirs(os.path.join(root, "!empty first"), exist_ok=True)
+    if os.path.isdir(os.path.join(root, "sub")):
+        os.makedirs(os.path.join(root, "sub", "!also empty", "deeper"), exist_ok=True)
 
 
 def tree_tokens(t):
